@@ -6,6 +6,9 @@ from concurrent.futures import ThreadPoolExecutor
 VERIF = os.path.dirname(os.path.dirname(os.path.abspath(__file__)))
 REPO = os.environ.get('VERIF_REPO', '/repo')
 BUILD = os.path.join(VERIF, '.build')
+# binaries built against another checkout (seeded-change triage) get a directory of their own, so that several such runs
+# and a run against /repo can go on at the same time
+BIN = os.path.join(BUILD, 'bin' if REPO == '/repo' else 'bin-' + os.path.basename(REPO.rstrip('/')))
 HARNESS = os.path.join(VERIF, 'harness')
 MODPATH = 'github.com/tencent/goom'
 
@@ -108,7 +111,7 @@ class Ctx:
         self.scratch = os.path.join(BUILD, 'run', '%s-%d' % (pid, os.getpid()))
         shutil.rmtree(self.scratch, ignore_errors=True)
         os.makedirs(self.scratch)
-        os.makedirs(os.path.join(BUILD, 'bin'), exist_ok=True)
+        os.makedirs(BIN, exist_ok=True)
         self.home = os.path.join(self.scratch, 'home')
         os.makedirs(self.home)
         self.nchild = 0
@@ -123,7 +126,7 @@ class Ctx:
         ov = {'Replace': {os.path.join(REPO, v): s for v, s in files.items()}}
         ovp = os.path.join(self.scratch, 'overlay-%s.json' % name)
         json.dump(ov, open(ovp, 'w'))
-        out = os.path.join(BUILD, 'bin', '%s.test' % name)
+        out = os.path.join(BIN, '%s.test' % name)
         gc = 'all=-l' if gcflags is None else gcflags
         if race:
             gc += ' -d=checkptr=0'
